@@ -41,6 +41,10 @@ Expected(e) ==
     [] e.fn = "dqnorm2"    -> DQNorm2(DQ8(e.a))
     \* product of the UNIT dual quaternions of two rigid motions (q1, t1, d1), (q2, t2, d2), logged as
     \* K * real part and 2 K * dual part with K = d1 d2 sqrt(N(q1) N(q2))
+    \* unit dual quaternion U of the motion (q1, t1, d1) times a GENERAL dual quaternion B (integer 8-vector), logged as
+    \* 2 d1 sqrt(N(q1)) times the product:  [2 a.r B.r , 2 a.r B.d + a.d B.r]  with a = DQFromRigid2(motion)
+    [] e.fn = "udq_dq_mul" -> LET a == DQFromRigid2(Mk(e.q1, e.t1, e.d1))  B == DQ8(e.b)
+                              IN  Scale4(2, QMul(a.r, B.r)) \o QAdd(Scale4(2, QMul(a.r, B.d)), QMul(a.d, B.r))
     [] e.fn = "udqmul"     -> LET a == DQFromRigid2(Mk(e.q1, e.t1, e.d1))  b == DQFromRigid2(Mk(e.q2, e.t2, e.d2))
                               IN  QMul(a.r, b.r) \o QAdd(QMul(a.r, b.d), QMul(a.d, b.r))
     [] OTHER               -> << >>
